@@ -222,6 +222,11 @@ def gen_workspace(root, rng, depth=None, n_names=None, venv=None, collisions=Tru
                                 extra_deps=[dep])
             body.append(sw + "\n")
             ws.features.add(("broad_scoped_dependent",))
+        if collisions and rng.random() < 0.5:
+            # a name nobody requests, defined at several places, sometimes autouse
+            su, _ = fixture_src(ws, "lonely", rng, autouse=rng.random() < 0.4)
+            body.append(su + "\n")
+            ws.features.add(("unrequested_same_named",))
         has_conf = bool(body or imports) or rng.random() < 0.3
         if has_conf:
             ws.files[os.path.join(d, "conftest.py")] = "".join(conf + imports + ["\n"] + body)
